@@ -301,6 +301,13 @@ def chain(parents, i):
     return out
 
 
+def _fmt_key(h, e):
+    """which compiled methods / variants registry a decode event uses: with the stdlib JSON mixin from_json is
+    json.loads + from_dict, i.e. the SAME format as from_dict"""
+    f = e.get("fmt", "dict")
+    return "dict" if (f == "json" and h.get("flavour") == "json") else f
+
+
 def real_history(ctx, h, idx):
     """replays one history on real classes; returns the record to be judged, or None"""
     w = World(h["mode"], h["field"], h["sub"], h["sup"], h["tagger"], idx, h.get("flavour", "dict"), h.get("two_taggers", False))
@@ -363,7 +370,7 @@ def real_history(ctx, h, idx):
     ctx.bump("late-definition" if late else "all-defined-first")
     if h["tagger"]:
         ctx.bump("tagger-fn")
-    fmts = sorted({e.get("fmt", "dict") for e in h["events"] if "q" in e}) or ["dict"]
+    fmts = sorted({_fmt_key(h, e) for e in h["events"] if "q" in e}) or ["dict"]
     if len(fmts) > 1:
         ctx.bump("multi-format history")
     if h.get("two_taggers"):
@@ -377,7 +384,7 @@ def real_history(ctx, h, idx):
             for e in h["events"]:
                 if "d" in e:
                     evs.append({"d": [e["d"][0], e["d"][1], model_tag(h, e["d"])]})
-                elif "q" in e and e.get("fmt", "dict") == fm and e["q"][1] not in ("__nonmapping__", "__unhashable__"):
+                elif "q" in e and _fmt_key(h, e) == fm and e["q"][1] not in ("__nonmapping__", "__unhashable__"):
                     # (those two are rejected before the registry is consulted: not events of the registry machine)
                     evs.append({"q": e["q"]})
             lines.append({"op": "discr", "subtypes": h["sub"], "supertypes": h["sup"], "events": evs})
@@ -463,7 +470,7 @@ def judge(ctx, rec, out):
                     impl.append("special")
                     spec.append("special")
                     continue
-                a, b = its[e.get("fmt", "dict")]
+                a, b = its[_fmt_key(h, e)]
                 impl.append(next(a))
                 spec.append(next(b))
     else:
